@@ -36,6 +36,10 @@ CLAIMS = {
          "trusted: handlers are called as Go methods (no TLS/gRPC), challenge expiry by sleeping past a 1 s longevity, TLC"),
  "C15": ("shapes", "exploration", "RpcShapes.tla abstracts every request of the notary, gossip and webhook services to the class of each bytes / sub-message / address field and states the contract (a reply or an error, never a crash; unacceptable shapes are refused; a refusal adds nothing to ledger, awaiting cache or peer table); TLC enumerates the shape space (each field against a valid request, all pairs, the full product for SignedHash requests; triples in the thorough tier) and every enumerated shape is built concretely and sent to the real handlers under recover(), with TLC judging the recorded outcomes",
          "trusted: handlers are called as Go methods with message structs built directly (nil sub-messages included) rather than decoded from bytes; coverage-guided mutation of serialized requests is not attempted; TLC"),
+ "C04": ("seal", "model_checking", "Seal.tla is a symbolic (Dolev-Yao style) model of which bytes go into which digest (the transaction message as a bare concatenation, the vertex digest, the receiver signature that is checked only when present, self-checking addresses); TLC applies every mutation of the quantifier to every honest vertex of a bounded universe and reports exactly two ways around the signatures (known findings F11, F12); all concrete members of every abstract mutation - every single-bit flip of every fixed-size field, every address position, truncations / extensions, boundary moves, swaps between two valid vertices, replaced / stripped signatures and addresses, seeded multi-bit flips - are offered to a real node, which must admit a copy exactly when the abstract copy verifies in the model and change nothing when it refuses",
+         "trusted: cryptographic strength of ed25519 / sha256 (hashing injective, signatures unforgeable); TLC; LoadDag trusts its stream (no signature check) and is outside this check"),
+ "C18": ("race", "exploration", "the Go race detector judges a seeded concurrent workload over the ledger's public API with the real background loops running (retry ticker, subscriber, truncation loop), the awaiting cache and the gossip handlers; the specification contributes what to overlap (every pair of ledger operations is co-enabled in Ledger.tla, so the workload overlaps all of them) - the verdict itself is not TLC's",
+         "trusted: Go race detector; only races that occur in the explored schedules are reported"),
 }
 NA = {
  "C19": "encode/decode fidelity of third-party codecs: no state, interleaving or case analysis in this repository to specify; a TLA+ model of encode-then-decode is the identity function (DESIGN.md section 8)",
@@ -61,6 +65,10 @@ m = {"version": 1, "setup_cmd": "./check setup",
          "serves_properties": ["C16"], "kind_free_text": "TLA+ specification of the notary API's effects; TLC; call sequences replayed on the real server; TLC trace validation"},
         {"name": "shapes", "path": "specs/RpcShapes.tla specs/RpcShapesTrace.tla harness/cmd/drive/shapesdrv.go runner/shapeschk.py",
          "serves_properties": ["C15"], "kind_free_text": "TLA+ request-shape contract; TLC enumerates shapes; each executed on the real handlers; TLC judges outcomes"},
+        {"name": "seal", "path": "specs/Seal.tla specs/SealTrace.tla harness/cmd/drive/sealdrv.go runner/sealchk.py",
+         "serves_properties": ["C04"], "kind_free_text": "symbolic TLA+ model of signature coverage; all concrete mutations offered to a real node; TLC trace validation"},
+        {"name": "race", "path": "harness/cmd/drive/racedrv.go runner/racechk.py", "serves_properties": ["C18"],
+         "kind_free_text": "Go race detector over a concurrent workload (co-enabled operations from Ledger.tla)"},
         {"name": "locks", "path": "specs/WalkLocks.tla specs/WalkLocksMC.tla specs/WalkLocksTrace.tla harness/cmd/drive/locks.go runner/locks.py",
          "serves_properties": ["C08"], "kind_free_text": "explicit TLA+ specification of locks, walker goroutines and channels; TLC safety + liveness; real-code fault enumeration judged by TLC"}],
      "checks": [], "not_applicable": [], "notes": "see DESIGN.md; known findings in known_findings.json"}
